@@ -60,15 +60,9 @@ static Fr genFrustum (int k)
     F.b          = cy - w * U (0.2, 1);
     F.t          = cy + w * U (0.2, 1);
     F.ortho      = (k / 2) % 2 == 1;
-    // INPUT DOMAIN of this sweep: planes (p, M) takes the cross product of two far-corner differences and then its
-    // length: at float that overflows when (far/near)^2 * width * height exceeds ~1.8e19 (Vec3::length has no overflow
-    // scaling).  Such frusta are excluded here and probed separately (`info:float_far_plane_overflow…`).
-    double ov = (F.f / F.n) * (F.f / F.n) * (F.r - F.l) * (F.t - F.b);
-    if (!F.ortho && ov > 1e15)
-    {
-        double sh = std::sqrt (ov / 1e15);
-        F.l /= sh; F.r /= sh; F.t /= sh; F.b /= sh;
-    }
+    // (no domain exclusion: since /repo 16a5ca8 Vec3::length takes the scaled path when the squares overflow, so the far-corner
+    //  cross products of planes (p, M) are normalised correctly at float even for far/near = 1e6 with wide windows; the fixed
+    //  probe `C16PROBE far-plane` keeps the formerly failing input as a full-strength obligation)
     return F;
 }
 template <class T> static Frustum<T> mk (const Fr& F) { return Frustum<T> ((T) F.n, (T) F.f, (T) F.l, (T) F.r, (T) F.t, (T) F.b, F.ortho); }
@@ -716,7 +710,8 @@ static int specMain (unsigned long seed)
     return specFails ? 1 : 0;
 }
 
-// the overflow limitation, measured on a fixed input (not judged): far/near = 1e6 with a window of several near distances
+// formerly failing input (finding planesM:float:far-plane-normal-overflow, fixed by /repo 16a5ca8): far/near = 1e6 with a window of
+// several near distances; judged by the check (obligation probe:far-plane)
 static void overflowProbe ()
 {
     Frustum<float> fr (390.092346f, 390092352.f, 1154.62439f, 6716.17383f, 944.499451f, -4814.44336f, false);
